@@ -206,6 +206,9 @@ func runHTTPScenario(t *testing.T, sc hScenario) (lines []M, problem string) {
 			if sr.Ra >= 0 {
 				w.Header().Set("Retry-After", strconv.Itoa(sr.Ra))
 			}
+			if sr.Mode == "slow" {
+				time.Sleep(unit) // the server takes a while to answer: Retry-After counts from the answer, not from the request
+			}
 			w.WriteHeader(sr.Status)
 			if sr.Mode == "streamed" {
 				half := len(respBody) / 2
